@@ -1,0 +1,26 @@
+//go:build verif
+
+package hsmsss
+
+import "github.com/arloliu/go-secs/v2/hsms"
+
+// verif_export.go — exports for the out-of-tree runtime-verification harness (build tag "verif").
+
+// VerifLinktestFailureStep is the pure linktest failure reducer.
+func VerifLinktestFailureStep(suppress bool, recvNow, sentAt, inflight int64, fails int, recvAtLastFail int64) (int, int64, bool) {
+	return linktestFailureStep(suppress, recvNow, sentAt, inflight, fails, recvAtLastFail)
+}
+
+// VerifLinktestDisconnectRecheck is the pure pre-disconnect re-check.
+func VerifLinktestDisconnectRecheck(suppress bool, inflight, recvNow, sentAt int64) bool {
+	return linktestDisconnectRecheck(suppress, inflight, recvNow, sentAt)
+}
+
+// VerifCore unwraps the shared hsms engine behind an hsmsss connection.
+func VerifCore(c hsms.Connection) hsms.Connection {
+	if cc, ok := c.(*connection); ok {
+		return cc.Connection
+	}
+
+	return c
+}
